@@ -7,6 +7,9 @@ from prov.model import ProvException
 
 
 class C08(Oracle):
+    # reach probes that must not be stuck at zero (else the workload is not reaching what
+    # the design says it reaches): the check then exits 2
+    required_probes = {"quick": ['conflict_expected'], "thorough": ['conflict_expected']}
     prop = "C08"
 
     def swarm(self, rng):
